@@ -86,7 +86,8 @@ type Gen struct {
 	// consumed origin txs (generator memory, for deliberate replays)
 	origins []originSeed
 	// resolver urls used
-	urls []string
+	urls         []string
+	pendingProbe bool
 }
 
 func (g *Gen) next() int { g.uniq++; return g.uniq }
@@ -150,6 +151,9 @@ func (g *Gen) Run() {
 			if !g.emit(st) {
 				return
 			}
+			if p.PProbe > 0 && st.Tx.Signer == g.Gov.Addr && g.W.curBlock != nil && len(g.W.curBlock.Txs) > 0 && g.W.curBlock.Txs[len(g.W.curBlock.Txs)-1].Res.OK {
+				g.pendingProbe = true // an accepted parameter change: open a faults-stopped probe phase
+			}
 			g.recent = append(g.recent, st)
 			if len(g.recent) > 16 {
 				g.recent = g.recent[1:]
@@ -165,7 +169,8 @@ func (g *Gen) Run() {
 				return
 			}
 		}
-		if g.R.Chance(p.PProbe) {
+		if g.R.Chance(p.PProbe) || g.pendingProbe || (g.blk == 0 && p.PProbe > 0) {
+			g.pendingProbe = false
 			if !g.probePhase() {
 				return
 			}
